@@ -190,9 +190,15 @@ def tuple_of(inst, k):
         elif p.isnumeric():
             out.append(int(p))
         elif p == "index":
-            out.append(inst.start + k)
+            try:
+                out.append(inst.start + k)
+            except Exception:  # noqa: a changed generator without `start`: classification only
+                out.append(("?", "index", k))
         elif p == "context":
-            out.append(inst.unique_identifer)
+            try:
+                out.append(inst.unique_identifer)
+            except Exception:  # noqa
+                out.append(("?", "context"))
         else:
             out.append(("?", p))
     return tuple(out)
